@@ -208,6 +208,8 @@ def report(prop, tier, seed, mod, obs, results, pre, t0):
             if r["verdict"] == "cex":
                 twins_ok += 1
                 replays += 1
+            elif r["verdict"] == "inconclusive":
+                inconclusive.append(r)  # the family itself is inconclusive (e.g. unsupported construct)
             else:
                 errors.append((r, f"reachability twin did not fail (verdict {r['verdict']}: {r.get('msg')})"))
             continue
@@ -324,10 +326,10 @@ def report(prop, tier, seed, mod, obs, results, pre, t0):
         f"inconclusive={len(inconclusive)} violations={len(violations)} known_findings={len(known_hits)} "
         f"errors={len(errors)} paths={paths} smt_queries={queries} solver_s={solver_s} wall_s={ev['wall_s']}"
     )
+    if violations:
+        return 1  # a violation reproduced on the real code stands, whatever else went wrong
     if errors:
         return 2
-    if violations:
-        return 1
     return 0
 
 
